@@ -19,6 +19,18 @@ CLAIMS = {
         "the reviewed exception tables in rules/C02.py (maintenance writers, creation token), atomicity of the object store's conditional PUT.",
         "static analysis: MIR dominance, value provenance and call-graph who-may-call over rustc_private facts; HIR arm tables",
         "DESIGN.md §3 C02"),
+    "C05": (
+        "Decides the structural skeleton of WAL recovery: R1 the reader pushes an entry (and counts it into the valid prefix) only after a full "
+        "header read, a successful decode, a full payload read and an equal CRC, and every failure edge leaves the loop (MIR edge dominance + "
+        "reachability from failure edges); R2 encode_header and decode_header agree on byte range, width and endianness of magic/version/flags/"
+        "seq/len/crc, the layout is gap-free up to HEADER_LEN, the CRC covers the payload on both sides (typed-HIR frame tables cross-checked, "
+        "reader positions by MIR provenance); R3 open() truncates the active segment to its valid prefix on every Ok path; R4 next_seq = "
+        "max(last surviving, flushed mark) + 1; R5 remove_file only under segment.id < current and last_seq < seq (comparison edges normalised, "
+        "operator rewrites tolerated); R6 append_payload writes and returns the pre-increment next_seq and increments before every exit. "
+        "Does not decide byte-level exactness for every cut offset, nor fsync semantics.",
+        "Trusted: rustc type checker / MIR, the driver, std::fs / tokio::fs semantics (set_len, append mode), crc32fast.",
+        "static analysis: MIR edge dominance and value provenance; typed-HIR writer/reader frame-table agreement",
+        "DESIGN.md §3 C05"),
 }
 
 NOT_YET = "rule set under construction in this round; see DESIGN.md §3 for the planned static rules"
